@@ -185,6 +185,12 @@ class CoderState(object):
     def cancel_bitmap(self):
         self.bitmap = None
 
+    def cancel_new_refvals(self):
+        """
+        Cancel all new reference values, i.e. 203000.
+        """
+        self.new_refvals = {}
+
     def cancel_all_back_references(self):
         self.back_referenced_descriptors = None
         self.bitmap = None
@@ -557,7 +563,7 @@ class Coder(object):
             else:
                 state.nbits_of_new_refval = operand_value
                 if operand_value == 0:
-                    state.new_refvals = {}
+                    state.cancel_new_refvals()
 
         elif operator_code == 204:  # associated field
             if operand_value == 0:
